@@ -198,6 +198,16 @@ func runC17(c *Ctx) {
 	c.OnlyCalledFrom("pk.Keeper.CreateConsumerClient", "pk.Keeper.LaunchConsumer")
 	c.OnlyCalledFrom("pk.Keeper.MakeConsumerGenesis", "pk.Keeper.LaunchConsumer")
 
+	// the client binding is released by every deletion, whether or not a channel was ever opened
+	if f := c.Fn("pk.Keeper.DeleteConsumerChain"); f != nil {
+		if del := c.one(f, false, "pk.Keeper.DeleteConsumerClientId"); del != nil {
+			stp, _ := c.ConstVal("pt.CONSUMER_PHASE_STOPPED")
+			stoppedA := AEq("phase == STOPPED", PCall("pk.Keeper.GetConsumerPhase", -1, nil, nil, PParam("consumerId")), PConstInt(stp))
+			for _, r := range reachableReturns(f, T(stoppedA)) {
+				c.Check(mustPassBefore(r, del) && PParam("consumerId")(arg(del, 1)), fk(f, "client-binding-always-released"), r, "every return of a STOPPED consumer's deletion passes DeleteConsumerClientId(consumerId)")
+			}
+		}
+	}
 	// genesis restores the bindings in their roles (all arguments are strings)
 	if f := c.Fn("pk.Keeper.InitGenesis"); f != nil {
 		cs := PElemOf(PField(PParam("genState"), "ConsumerStates"))
@@ -231,6 +241,8 @@ func runC17(c *Ctx) {
 	// ---- R6 ------------------------------------------------------------------------------------
 	c.Rule("R6", "injective client binding (no two consumers share a client): see C13.R5; here: both binding sites bind the id being launched, and MakeConsumerGenesis additionally requires the connection's client to carry the consumer's chain id", 3)
 	checkBindingPairs(c, false)
+	// launches of one block see each other's bindings: each launch is committed before the next starts
+	checkCachedLoop(c, "pk.Keeper.BeginBlockLaunchConsumers", "pk.Keeper.LaunchConsumer")
 	checkAccessorAgreement(c, "ck", "ProviderClientIDKey", "ProviderChannelIDKey", "PortKey")
 	if f := c.Fn("pk.Keeper.MakeConsumerGenesis"); f != nil {
 		if set := c.one(f, false, "pk.Keeper.SetConsumerClientId"); set != nil {
